@@ -193,6 +193,13 @@ class Sess:
 
     def handle(self, agent, req):
         self.step_reqs.append(req)
+        if getattr(self, "probing", False):
+            # deafness probe after an unexpected timeout: answer plainly, judge nothing
+            if not req.ok:
+                return None
+            if req.version == 3 and req.m["usm"]["engine_id"] == b"":
+                return agent.report(req, rigp.REPORT_UNKNOWN_ENGINE, flags=0, mac="empty", encrypt=False)
+            return agent.reply(req, self.mib.vb_get(req.oids()))
         exp = self.exp
         if exp is None:
             self.step_bad.append(("count", "datagram although none is expected for %s: %s" % (self.op, req.raw.hex()[:120]), req))
@@ -210,12 +217,14 @@ class Sess:
         out = []
         if self.beh == "drop":
             return None
-        if self.beh == "stray":
+        if self.beh in ("stray", "stray_drop"):
             # non-matching but well-formed datagrams first: must not disturb the session state
             sb, stm = self.new_ident()
             for _ in range(self.rng.randint(1, 3)):
                 out.append(agent.reply(req, [B.enc_varbind((1, 3, 9), B.enc_int(666))],
                                        request_id=(req.request_id + self.rng.randrange(1, 1000)) & 0x7FFFFFFF, boots=sb, time=stm))
+        if self.beh == "stray_drop":
+            return out  # strays only, the genuine reply is lost: the call must time out
         if v3 and req.m["usm"]["engine_id"] == b"":
             # discovery
             self.accept(agent.boots, agent.time)
@@ -308,32 +317,37 @@ class Sess:
             op = "getnext"
         self.op, self.walk, self.exp, self.step_reqs, self.step_bad = op, None, None, [], []
         self.trimmed, self.want = False, None
-        self.beh = rng.choices(["reply", "drop", "big", "stray"], self.k.get("beh_weights", [76, 2, 10, 12]))[0]
+        w = list(self.k.get("beh_weights", [76, 2, 10, 12]))
+        w = w + [self.k.get("stray_drop_weight", 2)] if len(w) == 4 else w
+        self.beh = rng.choices(["reply", "drop", "big", "stray", "stray_drop"], w)[0]
         self.cap = rng.choice([None, 1, 2, 3, 7])
         keys = self.mib.keys
         args, expect_sent = (), True
         if op == "open":
-            self.beh = "reply"
+            # sometimes the very first probe is lost: the context entry times out and is retried on the same session
+            self.beh = "drop" if (rng.random() < self.k.get("open_drop", 0.15) and getattr(self, "open_tries", 0) < 2) else "reply"
+            self.open_tries = getattr(self, "open_tries", 0) + 1
             if v3 and (not cfg.engine_given or cfg.auth):
                 self.exp = {"tag": B.PDU_GET, "a": 0, "b": 0, "oids": [], "report": True}
             else:
                 expect_sent = False
-            self.opened = True
+                self.beh = "reply"
+            self.opened = self.beh == "reply"
         elif op == "refresh":
-            self.beh = "reply"
+            self.beh = "reply" if self.beh != "drop" else "drop"
             if cfg.auth:
                 self.exp = {"tag": B.PDU_GET, "a": 0, "b": 0, "oids": [], "report": True}
             else:
                 expect_sent = False
         elif op == "get":
-            o = rng.choice(keys) if keys and rng.random() < 0.7 else M.gen_oid(rng)
+            o = rng.choice(keys) if keys and rng.random() < 0.7 else M.gen_oid(rng, 2, rng.choice([14, 14, 40, 128]))
             args = (B.oid_text(o),)
             self.exp = {"tag": B.PDU_GET, "a": 0, "b": 0, "oids": [o]}
             e = self.mib.get(o)
             self.want = ("ok", e[2]) if e else ("exc", "NoSuchInstance")
         elif op == "get_many":
             n = rng.choice([0, 1, 2, 5, 17, 40, 60, rng.randrange(0, 61)])
-            oids = [rng.choice(keys) if keys and rng.random() < 0.5 else M.gen_oid(rng, 2, rng.choice([4, 14, 30])) for _ in range(n)]
+            oids = [rng.choice(keys) if keys and rng.random() < 0.5 else M.gen_oid(rng, 2, rng.choice([4, 14, 30, 128] if n < 20 else [4, 14, 30])) for _ in range(n)]
             args = ([B.oid_text(o) for o in oids],)
             self.exp = {"tag": B.PDU_GET, "a": 0, "b": 0, "oids": oids, "report": v3 and n == 0}
             self.want = ("ok", {B.oid_text(o): self.mib.get(o)[2] for o in oids if self.mib.get(o)})
@@ -348,9 +362,7 @@ class Sess:
             mr = (m or self.max_rep) if bulk else 0
             e = {"tag": B.PDU_GETBULK if bulk else B.PDU_GETNEXT, "a": 0, "b": mr, "oids": [base]}
             self.exp, self.walk = dict(e), {"base": base, "exp": e}
-            if self.beh == "stray":
-                self.beh = "reply"
-            if self.beh == "big":
+            if self.beh in ("stray", "big", "stray_drop"):
                 self.beh = "reply"
             if self.cap is None and bulk:
                 self.cap = 25
@@ -375,6 +387,35 @@ class Sess:
             time.sleep(0.003)
         with RES_LOCK:
             self._record(res, aspects, out, args, expect_sent)
+        if self.desync and getattr(self, "opened", False):
+            self.probe(res, aspects)
+
+    def probe(self, res, aspects):
+        """A call timed out although the agent answered.  Load, or is the client deaf for good (e.g. it
+        now drops every genuine reply)?  Three plain exchanges decide: if all three time out while the
+        agent's own log shows a reply sent within 0.3 s of each request, that is a verdict."""
+        self.probing = True
+        fails, notes = 0, []
+        for _ in range(3):
+            n0 = len(self.agent.log)
+            out = self.drv.call("get", B.oid_text(self.root + (0,)))
+            log = self.agent.log[n0:]
+            rx = [t for k, t, _ in log if k == "rx"]
+            tx = [t for k, t, _ in log if k == "tx"]
+            answered = bool(rx and tx and (tx[0] - rx[0]) < 0.3e9)
+            notes.append((out[0] if out[0] == "ok" else out[1]["cls"], answered))
+            if out[0] == "exc" and out[1]["cls"] == "TimeoutError" and answered:
+                fails += 1
+            else:
+                break
+        self.probing = False
+        if fails == 3:
+            with RES_LOCK:
+                if (not aspects or "deaf" in aspects) and len(res["bad"]) < 200:
+                    res["bad"].append({"aspect": "deaf", "msg": "after %s the session no longer delivers any reply: 3 plain get() calls timed out although the "
+                                       "agent answered each within 0.3 s %s" % (self.op, notes), "cfgkey": self.cfg.key(), "cfg": self.cfg.to_json(),
+                                       "op": self.op, "args": "", "behaviour": self.beh, "outcome": "TimeoutError x3", "datagram": None,
+                                       "state": {k: (v.hex() if isinstance(v, bytes) else v) for k, v in self.st.items()}})
 
     def _record(self, res, aspects, out, args, expect_sent):
         cfg = self.cfg
@@ -386,7 +427,7 @@ class Sess:
         # reply the client consumed.  Only "nothing was ever sent" remains a verdict.
         self.desync = False
         timed_out = out[0] == "exc" and out[1]["cls"] == "TimeoutError"
-        if timed_out and self.beh != "drop" and expect_sent:
+        if timed_out and self.beh not in ("drop", "stray_drop") and expect_sent:
             t_end = time.time() + 3.0
             while not self.step_reqs and time.time() < t_end:
                 time.sleep(0.01)
@@ -396,7 +437,7 @@ class Sess:
                     cfg.key(), self.op, self.drv.last_duration))
         # count: a call that returned consumed every expected datagram; a call that was expected to
         # send did send
-        if self.beh != "drop" and self.exp is not None and out[0] == "ok":
+        if self.beh not in ("drop", "stray_drop") and self.exp is not None and out[0] == "ok":
             self.step_bad.append(("count", "call %s returned %s but the next expected datagram (%s) was never sent" % (
                 self.op, repr(out[1])[:80], self.exp), None))
         if expect_sent and not self.step_reqs:
@@ -407,7 +448,7 @@ class Sess:
             self.step_bad.append(("bad_oid", "invalid OID text %r accepted: %s" % (args[0], repr(out)[:120]), None))
         if out[0] == "exc" and driver.classify_exc(out[1]) == "panic":
             self.step_bad.append(("panic", "%s%s raised %s: %s" % (self.op, repr(args)[:80], out[1]["cls"], out[1]["msg"][:160]), None))
-        if self.want is not None and self.beh not in ("drop", "big") and not self.trimmed and not timed_out:
+        if self.want is not None and self.beh not in ("drop", "big", "stray_drop") and not self.trimmed and not timed_out:
             w = self.want
             good = (out[0] == "ok" and w[0] == "ok" and out[1] == w[1] and type(out[1]) is type(w[1])) or \
                    (out[0] == "exc" and w[0] == "exc" and out[1]["cls"].endswith(w[1]))
@@ -463,7 +504,7 @@ def gen_cfg(rng, knobs):
     pw = bytes(rng.randrange(33, 127) for _ in range(rng.choice([8, 9, 12, 31])))
     pw2 = bytes(rng.randrange(33, 127) for _ in range(rng.choice([8, 10, 16])))
     return rigp.Cfg("v3", user=user, auth=auth, priv=priv, auth_kt=akt, priv_kt=pkt, auth_pw=pw, priv_pw=pw2,
-                    engine_given=eg, client=cl)
+                    engine_given=eg, client=cl, empty_engine=(not eg and rng.random() < 0.3))
 
 
 def worker(job):
